@@ -201,6 +201,16 @@ def c11_rest(ctx, facts, nr, memo):
     sk = shared.size_init(facts, ER)
     ctx.require(sk is not None, "C11.6: remaining-size field of the length-limited reader")
     DR.owed_rules(ctx, "C11.6", ER, sk)
+    # ---- C11.8 handing a parsed request to the application's queue never waits for the application: the connection's thread neither
+    # sleeps nor waits on a condition variable (a bounded queue whose `push` waits for room stops the reading ahead until some receiver
+    # comes back; the rule C08.5 decides for the connection task)
+    import server_rules as S_
+    SM_ = S_.smodel(facts)
+    inst_ = [i for i in facts.instances_of(SM_.task_def) if i["kind"] == "item"]
+    ctx.require(len(inst_) == 1, "C11.8: instance of the connection task")
+    bad_ = facts.effects()[inst_[0]["id"]] & {"CV-WAIT", "CV-WAIT-T", "SLEEP", "JOIN"}
+    ctx.ob("C11.8", "connection-task|never-waits-for-the-application", "the connection task never sleeps, joins or waits on a condition variable", not bad_, "%s:%d" % (SM_.tk.file, SM_.tk.line),
+           None if not bad_ else "%s via %s" % (sorted(bad_), facts.effect_witness(inst_[0]["id"], sorted(bad_)[0])[:8]))
     return {}
 
 
